@@ -162,9 +162,13 @@ partial def loop (v : Hand.Variant) (T : Hand.Tables) (h : IO.FS.Stream) (out : 
         | none => s!"err {esc "Z out of range".toList} live=0,0"
       | none => "bad-op"
     | ["s2z", s] =>
-      match Hand.symbolToAtomicNumber T (unesc s.toList) with
-      | some z => s!"ok {z} live=0,0"
-      | none => s!"err {esc "Invalid chemical symbol".toList} live=0,0"
+      match Hand.symbolToAtomicNumberC T (some (unesc s.toList)) with
+      | .ok z => s!"ok {z} live=0,0"
+      | .error m => s!"err {esc m} live=0,0"
+    | ["s2znull"] =>
+      match Hand.symbolToAtomicNumberC T none with
+      | .ok z => s!"ok {z} live=0,0"
+      | .error m => s!"err {esc m} live=0,0"
     | ["spec", s] => doSpec T (unesc s.toList)
     | ["tablesok"] => s!"{Hand.tablesOK T}"
     | [""] => ""
